@@ -1,6 +1,7 @@
 package rules
 
 import (
+	"go/token"
 	"fmt"
 	"go/constant"
 	"go/types"
@@ -332,11 +333,197 @@ func runC03(c *Ctx) {
 // checkWaits: in ExpectPacket every successfully read message is decoded and its type compared
 // before the next read or a successful return; in ExpectMessage every read message's type is
 // compared with the requested types.
+// reachesWithoutRead: to is reachable from from without executing a ReadMessage call (i.e. for the same message).
+func reachesWithoutRead(from, to *ssa.BasicBlock, isCallTo func(ssa.Instruction, string) bool) bool {
+	seen := map[*ssa.BasicBlock]bool{}
+	var walk func(b *ssa.BasicBlock) bool
+	walk = func(b *ssa.BasicBlock) bool {
+		if seen[b] {
+			return false
+		}
+		seen[b] = true
+		if b != from {
+			for _, in := range b.Instrs {
+				if isCallTo(in, "(*Protocol).ReadMessage") {
+					return false
+				}
+			}
+		}
+		if b == to && b != from {
+			return true
+		}
+		for _, s := range b.Succs {
+			if s == to {
+				// the read (if any) in the target block precedes the decode only when it is the loop header; check instructions
+				blocked := false
+				for _, in := range s.Instrs {
+					if isCallTo(in, "(*Protocol).ReadMessage") {
+						blocked = true
+					}
+				}
+				if !blocked {
+					return true
+				}
+				continue
+			}
+			if walk(s) {
+				return true
+			}
+		}
+		return false
+	}
+	return walk(from)
+}
+
+// messageTypeSwitch: the expression switch over a MessageType value with the most cases in fn.
+func messageTypeSwitch(P *core.Program, fn *ssa.Function) *core.Switch {
+	_, info := P.Body(fn)
+	var best *core.Switch
+	for _, s := range P.Switches(fn) {
+		if s.IsType || s.Tag == nil || info == nil {
+			continue
+		}
+		if t := info.TypeOf(s.Tag); t != nil && strings.HasSuffix(types.TypeString(t, nil), "MessageType") {
+			if best == nil || len(s.Cases) > len(best.Cases) {
+				best = s
+			}
+		}
+	}
+	return best
+}
+
+// decodableTypes: the message types DecodeMessage has a packet for (the non-default cases of its dispatch switch).
+func decodableTypes(P *core.Program) map[int64]bool {
+	decode := P.Func("rtmp", "(*Protocol).DecodeMessage")
+	if decode == nil {
+		return nil
+	}
+	sw := messageTypeSwitch(P, decode)
+	if sw == nil {
+		return nil
+	}
+	out := map[int64]bool{}
+	for _, cs := range sw.Cases {
+		for _, k := range cs.Consts {
+			if v, ok := constant.Int64Val(k); ok {
+				out[v] = true
+			}
+		}
+	}
+	return out
+}
+
 func checkWaits(c *Ctx) {
 	P, R := c.P, c.R
 	isCallTo := func(in ssa.Instruction, name string) bool {
 		call, ok := in.(*ssa.Call)
 		return ok && call.Call.StaticCallee() != nil && core.FuncName(call.Call.StaticCallee()) == name
+	}
+	D := decodableTypes(P)
+	// excludedOnEdge: on the edge from b to its idx-th successor the message type is known to differ from every type
+	// DecodeMessage has a packet for (dominating inequality facts plus the fact the edge itself carries)
+	typeTest := func(b *ssa.BasicBlock) (k int64, eq bool, ok bool) {
+		if len(b.Instrs) == 0 {
+			return
+		}
+		iff, isIf := b.Instrs[len(b.Instrs)-1].(*ssa.If)
+		if !isIf {
+			return
+		}
+		bo, isB := iff.Cond.(*ssa.BinOp)
+		if !isB || (bo.Op != token.EQL && bo.Op != token.NEQ) {
+			return
+		}
+		x, y := bo.X, bo.Y
+		if _, isC := core.ConstInt(x); isC {
+			x, y = y, x
+		}
+		kk, isC := core.ConstInt(y)
+		if !isC || !strings.HasSuffix(core.Path(x), "MessageType") {
+			return
+		}
+		return kk, bo.Op == token.EQL, true
+	}
+	excludedOnEdge := func(b *ssa.BasicBlock, idx int) bool {
+		if len(D) == 0 {
+			return false
+		}
+		neg := map[int64]bool{}
+		for _, a := range core.GuardAtoms(b) {
+			if a.Op != "!=" || !strings.HasSuffix(a.L, "MessageType") {
+				continue
+			}
+			if k, ok := core.ConstInt(a.RV); ok {
+				neg[k] = true
+			}
+		}
+		if k, eq, ok := typeTest(b); ok && ((eq && idx == 1) || (!eq && idx == 0)) {
+			neg[k] = true
+		}
+		for k := range D {
+			if !neg[k] {
+				return false
+			}
+		}
+		return true
+	}
+	// the typed wait must not fail on a message that carries no packet (Acknowledgement, Abort, audio, video ...):
+	// DecodeMessage returns an error for those, so they have to be skipped before it is called
+	if ep := P.Func("rtmp", "(*Protocol).ExpectPacket"); R.Anchor(ep != nil && len(D) > 0, "C03.wait", "rtmp.(*Protocol).ExpectPacket / DecodeMessage dispatch") {
+		// reaches the decode for the same message (no ReadMessage in between)
+		var sameMsgDecode func(b *ssa.BasicBlock, seen map[*ssa.BasicBlock]bool) bool
+		sameMsgDecode = func(b *ssa.BasicBlock, seen map[*ssa.BasicBlock]bool) bool {
+			if seen[b] {
+				return false
+			}
+			seen[b] = true
+			for _, in := range b.Instrs {
+				if isCallTo(in, "(*Protocol).ReadMessage") {
+					return false
+				}
+				if isCallTo(in, "(*Protocol).DecodeMessage") {
+					return true
+				}
+			}
+			for _, s2 := range b.Succs {
+				if sameMsgDecode(s2, seen) {
+					return true
+				}
+			}
+			return false
+		}
+		skips, leak := 0, ""
+		compared := map[int64]bool{}
+		for _, b := range ep.Blocks {
+			if k, _, ok := typeTest(b); ok {
+				compared[k] = true
+			}
+			for idx, s2 := range b.Succs {
+				if excludedOnEdge(b, idx) {
+					skips++
+					if sameMsgDecode(s2, map[*ssa.BasicBlock]bool{}) {
+						leak = "a message whose type has no packet still reaches DecodeMessage"
+					}
+				}
+			}
+		}
+		for k := range compared {
+			if !D[k] {
+				leak = fmt.Sprintf("message type %d is let through to DecodeMessage, which has no packet for it", k)
+			}
+		}
+		where := ""
+		core.EachInstr(ep, func(in ssa.Instruction) {
+			if isCallTo(in, "(*Protocol).DecodeMessage") {
+				where = P.InstrPos(in)
+			}
+		})
+		msg := "ExpectPacket hands every message to DecodeMessage (at " + where + "), which returns an error for the message types it has no packet for (Abort 2, Acknowledgement 3, audio 8, video 9, ...): the typed wait fails on such a message instead of skipping it"
+		if skips > 0 && leak != "" {
+			msg = "ExpectPacket's filter and DecodeMessage's dispatch disagree: " + leak
+		}
+		R.Check(skips > 0 && leak == "", "C03.wait", "rtmp|(*Protocol).ExpectPacket|skips-messages-without-a-packet", P.Pos(ep.Pos()),
+			"messages of a type DecodeMessage has no packet for are skipped before decoding (the skipped set is exactly the complement of the dispatch switch)", msg, nil)
 	}
 	for _, w := range []struct{ fn, must, what string }{
 		{"(*Protocol).ExpectPacket", "(*Protocol).DecodeMessage", "decoded"},
@@ -393,7 +580,10 @@ func checkWaits(c *Ctx) {
 								return
 							}
 						}
-						for _, s2 := range b.Succs {
+						for idx, s2 := range b.Succs {
+							if excludedOnEdge(b, idx) {
+								continue // a message without a packet: skipping it undecoded is right
+							}
 							walk(s2)
 						}
 					}
